@@ -781,6 +781,38 @@ def createAddress2 (addr : Nat) (salt : Word) (init : BA) : Nat :=
 
 def maxCodeSize : Nat := 245760
 
+def isAbortErr (e : Option Fault) : Bool :=
+  match e with
+  | some e => e.isAbort
+  | none => false
+
+/-- `evm.create`: code deposit (`createDataGas`, `SetCode`) after a successful init run -/
+def createDeposit (p26 : Bool) (address : Nat) (r : RunRes) : CallRes :=
+  let createDataGas := wmul r.ret.size 200
+  let createDataGas := if p26 then wmul createDataGas gasMagnification else createDataGas
+  match useGas r.gas createDataGas with
+  | some gasLeft =>
+    match r.g.tell ("sc:" ++ hexAddr address ++ ":" ++ hexBA r.ret) with
+    | some g' => ⟨r.ret, gasLeft, none, g', address⟩
+    | none => ⟨r.ret, r.gas, some (.desync "sc"), r.g, address⟩
+  | none => ⟨r.ret, r.gas, some .codeStoreOutOfGas, r.g, address⟩     -- kept: no revert, gas stays
+
+/-- `evm.create`: revert to the snapshot and confiscate the gas unless the init code reverted -/
+def createRevert (address : Nat) (snap : String) (tooBig : Bool) (r : RunRes) : CallRes :=
+  match r.g.tell ("rv:" ++ snap) with
+  | none => ⟨r.ret, r.gas, some (.desync "rv"), r.g, address⟩
+  | some g' =>
+    ⟨r.ret, if r.err ≠ some .reverted then 0 else r.gas,
+      if tooBig ∧ r.err.isNone then some .maxCodeSizeExceeded else r.err, g', address⟩
+
+/-- the part of `evm.create` after the init code ran: size check, code deposit,
+    revert + gas confiscation -/
+def createFinish (p26 : Bool) (address : Nat) (snap : String) (r : RunRes) : CallRes :=
+  if isAbortErr r.err then ⟨r.ret, r.gas, r.err, r.g, address⟩ else
+  let tooBig := decide (r.ret.size > maxCodeSize)
+  if r.err.isNone ∧ ¬ tooBig then createDeposit p26 address r
+  else createRevert address snap tooBig r
+
 /-- `evm.Create` / `evm.Create2` → `evm.create` -/
 def evmCreate (cx : Ctx) (run : Runner) (depth : Nat) (ro : Bool) (callerSelf : Nat)
     (salt : Option Word) (value : Word) (init : BA) (gas : Nat) (g : Global) : CallRes :=
@@ -833,33 +865,8 @@ def evmCreate (cx : Ctx) (run : Runner) (depth : Nat) (ro : Bool) (callerSelf : 
   match g10.tell ("ab:" ++ hexAddr address ++ ":" ++ hexNatMin value) with
   | none => bad "ab" g10
   | some g11 =>
-    let r := runContract run depth ro (mkFrame init gas address callerSelf value #[]) g11
-    if (match r.err with | some e => e.isAbort | none => false) then ⟨r.ret, r.gas, r.err, r.g, address⟩ else
-    let tooBig := decide (r.ret.size > maxCodeSize)
-    -- code deposit
-    let dep : Option Fault × Nat × Option Global :=
-      if r.err.isNone ∧ ¬ tooBig then
-        let createDataGas := wmul r.ret.size 200
-        let createDataGas := if cx.gc.p26 then wmul createDataGas gasMagnification else createDataGas
-        match useGas r.gas createDataGas with
-        | some gasLeft => (none, gasLeft, r.g.tell ("sc:" ++ hexAddr address ++ ":" ++ hexBA r.ret))
-        | none => (some .codeStoreOutOfGas, r.gas, some r.g)
-      else (r.err, r.gas, some r.g)
-    match dep with
-    | (_, _, none) => ⟨r.ret, r.gas, some (.desync "sc"), r.g, address⟩
-    | (err1, gas1, some g12) =>
-      let needRevert := tooBig ∨ (err1.isSome ∧ err1 ≠ some .codeStoreOutOfGas)
-      let fin : Option (Nat × Global) :=
-        if needRevert then
-          match g12.tell ("rv:" ++ snap) with
-          | some g13 => some (if err1 ≠ some .reverted then 0 else gas1, g13)
-          | none => none
-        else some (gas1, g12)
-      match fin with
-      | none => ⟨r.ret, gas1, some (.desync "rv"), g12, address⟩
-      | some (gas2, g13) =>
-        let err2 := if tooBig ∧ err1.isNone then some .maxCodeSizeExceeded else err1
-        ⟨r.ret, gas2, err2, g13, address⟩
+    createFinish cx.gc.p26 address snap
+      (runContract run depth ro (mkFrame init gas address callerSelf value #[]) g11)
 
 /-- dispatch of an `ExecOut.invoke` -/
 def doInvoke (cx : Ctx) (run : Runner) (depth : Nat) (ro : Bool) (fr : Frame) (r : Req) (g : Global) : CallRes :=
@@ -883,6 +890,14 @@ def resume (fr : Frame) (r : Req) (cr : CallRes) : Frame × BA :=
 
 /-! ## the loop -/
 
+/-- what `Run` does after `execute` returned without error: set the return data,
+    then `reverts` / `halts` / `pc++` as the table's flags say, and loop (`cont`) -/
+def finishStep (info : OpInfo) (cont : Frame → Global → RunRes) (fr2 : Frame) (res : BA) (g2 : Global) : RunRes :=
+  let g3 := if info.returns then { g2 with rd := res } else g2
+  if info.reverts then ⟨res, some .reverted, fr2.gas, g3⟩
+  else if info.halts then ⟨res, none, fr2.gas, g3⟩
+  else cont (if info.jumps then fr2 else { fr2 with pc := fr2.pc + 1 }) g3
+
 /-- `EVMInterpreter.Run`'s `for` loop. `depth` is `evm.depth` inside this Run. -/
 def runLoop (cx : Ctx) : (fuel : Nat) → Runner
   | 0, _, _, fr, g => ⟨#[], some .outOfFuel, fr.gas, g⟩
@@ -890,25 +905,16 @@ def runLoop (cx : Ctx) : (fuel : Nat) → Runner
     match stepPre cx ro fr g with
     | .fault e g' => ⟨#[], some e, fr.gas, g'⟩
     | .ok info fr1 args g1 cgt =>
-      -- after `execute`: returnData, then err / reverts / halts / pc++
-      let finish (fr2 : Frame) (res : BA) (g2 : Global) : RunRes :=
-        let g3 := if info.returns then { g2 with rd := res } else g2
-        if info.reverts then ⟨res, some .reverted, fr2.gas, g3⟩
-        else if info.halts then ⟨res, none, fr2.gas, g3⟩
-        else
-          let fr3 := if info.jumps then fr2 else { fr2 with pc := fr2.pc + 1 }
-          runLoop cx fuel depth ro fr3 g3
       match execOp cx ro info.exec fr1 args g1 cgt with
       | .fault e g2 => ⟨#[], some e, fr1.gas, g2⟩
       | .upd u =>
-        finish { fr1 with stack := u.push ++ fr1.stack, mem := u.mem, pc := u.pc, authorized := u.authorized } u.res u.g
+        finishStep info (runLoop cx fuel depth ro)
+          { fr1 with stack := u.push ++ fr1.stack, mem := u.mem, pc := u.pc, authorized := u.authorized } u.res u.g
       | .invoke req deduct g2 =>
         let fr2 := { fr1 with gas := fr1.gas - deduct }
         let cr := doInvoke cx (runLoop cx fuel) depth ro fr2 req g2
-        if (match cr.err with | some e => e.isAbort | none => false) then ⟨#[], cr.err, fr2.gas, cr.g⟩
-        else
-          let (fr3, res) := resume fr2 req cr
-          finish fr3 res cr.g
+        if isAbortErr cr.err then ⟨#[], cr.err, fr2.gas, cr.g⟩
+        else finishStep info (runLoop cx fuel depth ro) (resume fr2 req cr).1 (resume fr2 req cr).2 cr.g
 
 /-- top-level `evm.Call` from an externally owned `origin` (contract_executor.go) -/
 def topCall (cx : Ctx) (fuel : Nat) (addr : Nat) (value : Word) (input : BA) (gas : Nat) (g : Global) : CallRes :=
